@@ -11,6 +11,7 @@ use std::time::{Duration, Instant};
 mod rng;
 mod c15;
 mod c06;
+mod c11;
 
 pub struct Budget {
     pub end: Instant,
@@ -28,6 +29,7 @@ fn run_one(pid: &str, input: &Value) -> Option<Value> {
     let r = std::panic::catch_unwind(move || match pid_s.as_str() {
         "C15" => c15::run(&input),
         "C06" => c06::run(&input),
+        "C11" => c11::run(&input),
         _ => None,
     });
     match r {
@@ -49,6 +51,7 @@ fn gen(pid: &str, r: &mut rng::Rng) -> Option<Value> {
     match pid {
         "C15" => Some(c15::gen(r)),
         "C06" => Some(c06::gen(r)),
+        "C11" => Some(c11::gen(r)),
         _ => None,
     }
 }
